@@ -51,7 +51,7 @@ var c13MachineCheck = register("C13", "c13.machine", func(c *machineCase) error 
 		return err
 	}
 	for _, w := range watch {
-		if string(w.live) != string(w.snap) {
+		if w.changed() {
 			return failf("C13 later-mutation", "caller-owned memory changed after the call returned: %s", w.name)
 		}
 	}
